@@ -191,6 +191,18 @@ def _dc_class(term, reg: Registry):
     if key in reg.by_def:
         return reg.by_def[key]
     from harness import classes  # late import: needs mashumaro
+    gen = get_opt(term[3], "generic") if len(term) > 3 else None
+    if gen:
+        # Box[args]: the generic class is built ONCE per universe from the template fields (annotations mention the TypeVars),
+        # the term stands for the subscripted alias -- built without typing's cache, so Box[Union[A, B]] and Box[Union[B, A]] stay distinct
+        params, args, tfields = gen
+        tmap = {f[0]: f[1] for f in tfields}
+        tcfg = [o for o in term[3] if o[0] != "generic"] + [["generic_params", list(params)]]
+        tterm = ["dc", term[1], [[f[0], tmap.get(f[0], f[1])] + list(f[2:]) for f in term[2]], tcfg]
+        template = _dc_class(tterm, reg)
+        alias = generic_subscript(template, tuple(concretize_type(a, reg) for a in args))
+        reg.by_def[key] = alias
+        return alias
     cls = classes.build_dataclass(term, reg)
     reg.by_def[key] = cls
     # classes referred to by forward references are defined only now (postponed evaluation of the referring class)
@@ -232,8 +244,23 @@ def subscript(generic, params):
     return generic[params]
 
 
+def generic_subscript(cls, params):
+    """cls[params] for a user-defined Generic class, bypassing typing's cache (see subscript)"""
+    arg = params if len(params) != 1 else params[0]
+    raw = getattr(getattr(typing, "_generic_class_getitem", None), "__wrapped__", None)          # Python >= 3.12
+    if raw is None:
+        raw = getattr(getattr(cls.__class_getitem__, "__func__", None), "__wrapped__", None)     # older: classmethod around the cached function
+    if raw is None:
+        raise BridgeError("cannot subscript a generic class without typing's cache on this Python")
+    return raw(cls, arg)
+
+
 def concretize_type(t, reg: Registry):
     tag = t[0]
+    if tag == "tvar":
+        if not hasattr(reg, "typevars"):
+            reg.typevars = {}
+        return reg.typevars.setdefault(t[1], typing.TypeVar(t[1]))
     simple = {
         "int": int, "float": float, "bool": bool, "str": str, "none": type(None), "any": Any,
         "bytes": bytes, "bytearray": bytearray, "datetime": dt.datetime, "date": dt.date,
